@@ -382,6 +382,13 @@ def r21_opcode_cast(sig, body):
     return sig, body, n
 
 
+def r26_precedence_cast(sig, body):
+    """R26: `Precedence::X as usize` -> `prec_usize(Precedence::X)` (the cast of the fieldless enum, by contract
+    `== prec_index(X)`, the discriminant function generated from the declaration order)"""
+    body, n = re.subn(r'\bPrecedence::(\w+)\s+as\s+usize\b', r'prec_usize(Precedence::\1)', body)
+    return sig, body, n
+
+
 def r22_write_macro(sig, body):
     """R22: `write!(BUF, "fmt", args…)` with its trailing `.unwrap()` / `.expect("…")` -> `verif_write(&mut BUF)`
     (text formatting into a String buffer is outside Verus; the arguments are dropped, the buffer is havocked)"""
@@ -473,6 +480,7 @@ RULES = {
     'R23': r23_debug_assert,
     'R24': r24_entry_or_insert,
     'R25': r25_stack_index,
+    'R26': r26_precedence_cast,
 }
 
 DESCRIPTIONS = {k: (v.__doc__ or '').strip() for k, v in RULES.items()}
